@@ -43,7 +43,7 @@ IfNoLaw == Done => CASE out.kind = "exc" -> call.ifno = "raise" /\ NLive(call) <
 CallMechanismIsLaw == Done => /\ MechLoaded(call) = LoadedSeq(call)
                               /\ MechRolls(call) = [p \in 1..Len(KeptSeq(call)) |-> RollOut(call, KeptSeq(call)[p])]
 CallFrontIsStitch == Done =>
-    LET N == New(call)  con == Contrib(call)  ubs == UBs(call) IN
+    LET N == New(call)  con == Contrib(call)  ubs == RawUBs(call) IN
     /\ \A r \in 1..NRows(N), j \in 1..NCols(N) : N.cols[j][r] = CellAtU(call, con, ubs, N.rows[r], j)
     /\ RangeOf(N.rows) = {t \in 1..Horizon : \E j \in 1..NEff(call) : CellAtU(call, con, ubs, t, j) # NaN}
 CallLoadsPrefix == Done => \A p \in 1..Len(out.loaded) :
